@@ -23,6 +23,8 @@ type CaseSpec struct {
 	NoMerge  bool  `json:"no_merge,omitempty"`
 	Tag      string `json:"tag,omitempty"`
 	Weight   int    `json:"-"` // scheduling hint (heavier cases first)
+	WantModel bool  `json:"-"` // keep a model of the first path (translator validation)
+	MaxWallS  int   `json:"-"` // wall-clock budget for the whole case (seconds)
 }
 
 func (c CaseSpec) ID() string {
@@ -79,6 +81,7 @@ type CaseResult struct {
 	Info       map[string]string
 	Nondet     int
 	SampleTerm string
+	SampleModel map[string]string // a model of the first completed path's condition (inside the replay ranges)
 }
 
 // RunCase explores all paths of a case.
@@ -112,7 +115,18 @@ func RunCase(p *Program, sol *Solver, spec CaseSpec) *CaseResult {
 	noMerge := map[*ssa.BasicBlock]bool{}
 	work := [][]bool{nil}
 	seenViol := map[string]bool{}
+	maxWall := time.Duration(spec.MaxWallS) * time.Second
+	if maxWall == 0 {
+		maxWall = 10 * time.Minute
+	}
+	deadline := t0.Add(maxWall)
+	sol.Deadline = deadline
+	defer func() { sol.Deadline = time.Time{} }()
 	for len(work) > 0 {
+		if time.Now().After(deadline) {
+			res.Incomplete = fmt.Sprintf("case time budget %v exceeded (%d paths done, %d pending)", maxWall, res.Paths, len(work))
+			break
+		}
 		if res.Paths >= maxPaths {
 			res.Incomplete = fmt.Sprintf("path cap %d hit (%d pending)", maxPaths, len(work))
 			break
@@ -121,6 +135,7 @@ func RunCase(p *Program, sol *Solver, spec CaseSpec) *CaseResult {
 		work = work[:len(work)-1]
 		ex := NewExec(p, sol, spec.FP, trace, noMerge)
 		ex.NoMerge = spec.NoMerge
+		ex.deadline = deadline
 		ex.trackMem = spec.TrackMem
 		if spec.MaxSteps > 0 {
 			ex.MaxSteps = spec.MaxSteps
@@ -196,6 +211,11 @@ func RunCase(p *Program, sol *Solver, spec CaseSpec) *CaseResult {
 			res.ReachSeen[l]++
 			if ok {
 				res.ReachSat[l]++
+			}
+		}
+		if out == ODone && res.SampleModel == nil && len(ex.nondet) > 0 && spec.WantModel {
+			if r, m := sol.Check(ex.rangeTerms(), ex.nondet); r == Sat {
+				res.SampleModel = m
 			}
 		}
 		switch out {
@@ -290,4 +310,24 @@ func uniq(xs []string) []string {
 	}
 	sort.Strings(out)
 	return out
+}
+
+// RunConcrete executes the harness once with every nondeterministic input fixed
+// (no forks, no solver decisions) and returns the observed assertion operands.
+func RunConcrete(p *Program, sol *Solver, spec CaseSpec, assignment map[string]string) ([]Observation, Outcome, string) {
+	entry := p.Func(spec.Pkg, spec.Harness)
+	if entry == nil {
+		return nil, OUnsupp, "harness not found"
+	}
+	ex := NewExec(p, sol, spec.FP, nil, nil)
+	ex.Concrete = assignment
+	var params []Value
+	if spec.Name != "" {
+		params = append(params, Str{C: spec.Name})
+	}
+	for _, v := range spec.Params {
+		params = append(params, mkInt(int64(v), 64, false))
+	}
+	out := ex.Run(entry, params)
+	return ex.Obs, out, ex.detail
 }
